@@ -18,6 +18,10 @@ package main
 //           for TOK: "tok=<token text> det=<hex of detached payload|-> rec=<key>,<hash>,<enc>,<b64 msg>,<b64 sig> res=<acc|rej>"
 
 import (
+	"time"
+	"sync/atomic"
+	"sync"
+	"runtime"
 	"crypto"
 	"crypto/ecdsa"
 	"crypto/ed25519"
@@ -188,7 +192,13 @@ var (
 
 type c08Resolver struct{}
 
+var c08SlowResolver atomic.Bool // key resolution takes a moment and yields the processor
+
 func (c08Resolver) Resolve(id string, _ ...vdrspi.DIDMethodOption) (*did.DocResolution, error) {
+	if c08SlowResolver.Load() {
+		runtime.Gosched()
+		time.Sleep(20 * time.Microsecond)
+	}
 	if id == "did:test:panic" {
 		// a key store that fails hard (the resolver is pluggable): whatever becomes of the failure, the token is not accepted
 		panic("verif: key store unavailable")
@@ -377,6 +387,7 @@ func c08Run(input string) string {
 		P = ""
 	}
 	parts := map[string]*string{"H": &H, "P": &P, "S": &S}
+	honestTok := H + "." + P + "." + S
 	applied := true
 	switch mf[0] {
 	case "none", "kidraw", "did2", "jwkhdr", "didkey":
@@ -538,6 +549,55 @@ func c08Run(input string) string {
 	}
 	if err == nil {
 		res = "acc"
+	}
+	// a refused alteration of the same length as the genuine token, once more while OTHER goroutines verify the genuine
+	// token with the same verifier and key resolution takes a moment (as it does over a network): what a verification
+	// holds on to while it waits belongs to it alone
+	if res == "rej" && applied && det == nil && (entry == "jws" || entry == "jwt") && len(tok) == len(honestTok) &&
+		tok != honestTok && len(input)%2 == 0 {
+		verify := func(t string) error {
+			if entry == "jws" {
+				_, e := jose.ParseJWS(t, c08SharedVerifier)
+				return e
+			}
+			_, _, e := jwt.Parse(t, jwt.WithSignatureVerifier(c08SharedVerifier), jwt.WithIgnoreClaimsMapDecoding(true))
+			return e
+		}
+		if verify(honestTok) == nil {
+			c08SlowResolver.Store(true)
+			var wg sync.WaitGroup
+			var accepted atomic.Bool
+			stop := make(chan struct{})
+			for g := 0; g < 4; g++ {
+				wg.Add(1)
+				go func() {
+					defer wg.Done()
+					defer func() { _ = recover() }()
+					for {
+						select {
+						case <-stop:
+							return
+						default:
+							_ = verify(honestTok)
+						}
+					}
+				}()
+			}
+			for it := 0; it < 40 && !accepted.Load(); it++ {
+				func() {
+					defer func() { _ = recover() }()
+					if verify(tok) == nil {
+						accepted.Store(true)
+					}
+				}()
+			}
+			close(stop)
+			wg.Wait()
+			c08SlowResolver.Store(false)
+			if accepted.Load() {
+				res = "acc"
+			}
+		}
 	}
 	if os_trace() && err != nil {
 		fmt.Println("#", err)
